@@ -12,6 +12,17 @@ from common import Result, rng_for
 from findings import classify_c01
 
 CORPUS = [
+    # a composition keyword whose ONLY sibling is additionalProperties / additionalItems (the base element consists of that one keyword)
+    ({"allOf": [{"properties": {"a": {}}}], "additionalProperties": False}, [{"a": 1}, {}, {"b": 1}, 1]),
+    ({"anyOf": [{"required": ["a"]}, {"required": ["b"]}], "additionalProperties": {"type": "integer"}}, [{"a": "x"}, {"a": 1}, {"b": 2, "a": 1}, {}]),
+    ({"not": {"required": ["x"]}, "additionalProperties": False}, [{"y": None}, {}, {"x": 1}]),
+    ({"oneOf": [{"minItems": 1}, {"maxItems": 0}], "additionalItems": False, "items": [{"type": "string"}]}, [["a"], ["a", 1], [], [1]]),
+    ({"anyOf": [{"type": "array"}], "additionalItems": {"type": "null"}, "items": []}, [[None], [1], []]),
+    ({"allOf": [{}], "additionalProperties": False, "default": {"k": 1}}, [{}, {"k": 1}]),
+    # enum / const holding booleans next to the numbers they alias in Python
+    ({"enum": [True]}, [1, 1.0, True, 0]), ({"enum": [False]}, [0, 0.0, False, ""]), ({"type": "integer", "enum": [True, 2]}, [1, 2, True]),
+    ({"items": [{"enum": [True]}]}, [[1], [True]]), ({"properties": {"flag": {"enum": [True, False]}}}, [{"flag": 1}, {"flag": 0}, {"flag": True}]),
+    ({"enum": [1]}, [True, 1, 1.0]), ({"enum": [[True]]}, [[1], [True]]), ({"const": True}, [1, True]), ({"enum": [{"on": 1}]}, [{"on": True}, {"on": 1}, {"on": 1.0}]),
     # the only matching member of `contains` is a FALSY value (0, "", null, false, [], {}) - and the falsy keyword values themselves
     ({"contains": {"type": "integer"}}, [[0], ["a", 0], [0.0], [], ["a"]]),
     ({"contains": {"type": "null"}}, [[None], [0], [False]]),
